@@ -464,8 +464,9 @@ func (n *Node) CheckHeaderViews(clean func(b int) bool) string {
 	for h, b := range path {
 		on[b] = h
 	}
+	base := int(f.BaseHeight) // real height of abstract block 0
 	for h := 0; h <= len(path)+1; h++ {
-		got, err := n.Chain.HeaderHashByHeight(int32(h))
+		got, err := n.Chain.HeaderHashByHeight(int32(h + base))
 		if h < len(path) {
 			if err != nil || *got != *f.Hash(path[h]) {
 				return fmt.Sprintf("HeaderHashByHeight(%d)=(%v,%v), want block %d (header chain %v)", h, got, err, path[h], path)
@@ -487,7 +488,7 @@ func (n *Node) CheckHeaderViews(clean func(b int) bool) string {
 			return fmt.Sprintf("IsValidHeader(block %d)=false for a valid block on the best header chain %v", b, path)
 		}
 		gh, err := n.Chain.HeaderHeightByHash(*f.Hash(b))
-		if isOn && (err != nil || int(gh) != h) {
+		if isOn && (err != nil || int(gh) != h+base) {
 			return fmt.Sprintf("HeaderHeightByHash(block %d)=(%d,%v), want %d", b, gh, err, h)
 		}
 		if !isOn && err == nil {
@@ -499,7 +500,7 @@ func (n *Node) CheckHeaderViews(clean func(b int) bool) string {
 	for i := 0; i < len(best) && i < len(path) && best[i] == path[i]; i++ {
 		fork = i
 	}
-	if got := n.Chain.BestChainHeaderForkHeight(); int(got) != fork {
+	if got := n.Chain.BestChainHeaderForkHeight(); int(got) != fork+base {
 		return fmt.Sprintf("BestChainHeaderForkHeight=%d, active chain %v and header chain %v fork at height %d", got, best, path, fork)
 	}
 	return ""
